@@ -167,3 +167,50 @@ func VH_msgtx_size_at_varint_boundaries() {
 	vAssert(len(got.TxIn) == 1 && len(got.TxIn[0].Witness) == nw && len(got.TxIn[0].Witness[0]) == wl, "witness shape round trips")
 	vReach("end")
 }
+
+// C08(3c): witness presence is a per-transaction fact decided over ALL inputs: with 2 (thorough 3) inputs that
+// independently carry an empty or a non-empty witness stack, HasWitness == "some input has a non-empty witness"; the
+// witness encoding carries the BIP144 marker and flag (00 01 after the version) exactly then, is longer than the
+// stripped form exactly then, SerializeSize == bytes written, and decode(encode(tx)) returns every input's stack.
+//verif:opts reach=mixed,none,all
+func VH_msgtx_witness_presence_per_input() {
+	nin := 2 + vTier()
+	tx := &MsgTx{Version: vNondetI32("version"), LockTime: vNondetU32("locktime")}
+	any, all := false, true
+	for i := 0; i < nin; i++ {
+		ti := &TxIn{Sequence: vNondetU32("seq")}
+		ti.PreviousOutPoint.Index = vNondetU32("previdx")
+		ti.SignatureScript = vNondetBytes("sigscript", i%2)
+		if vNondetBool("haswit") {
+			ti.Witness = TxWitness{vNondetBytes("wit", 1+i%2)}
+			any = true
+		} else {
+			all = false
+		}
+		tx.TxIn = append(tx.TxIn, ti)
+	}
+	tx.TxOut = append(tx.TxOut, &TxOut{Value: vNondetI64("value"), PkScript: vNondetBytes("pkscript", 1)})
+	vAssert(tx.HasWitness() == any, "HasWitness == some input carries a witness")
+	w := &vWriter{}
+	vAssert(tx.BtcEncode(w, ProtocolVersion, WitnessEncoding) == nil, "encode ok")
+	vAssert(len(w.b) == tx.SerializeSize(), "SerializeSize == bytes written")
+	ws := &vWriter{}
+	vAssert(tx.BtcEncode(ws, ProtocolVersion, BaseEncoding) == nil, "encode ok (base)")
+	vAssert(len(ws.b) == tx.SerializeSizeStripped(), "SerializeSizeStripped == bytes written")
+	marker := len(w.b) > 5 && w.b[4] == 0 && w.b[5] == 1
+	vAssert(marker == any, "marker and flag are present iff some input carries a witness")
+	vAssert((len(w.b) > len(ws.b)) == any, "the witness form is longer than the stripped form iff there is witness data")
+	var got MsgTx
+	r := &vReader{b: w.b}
+	vAssert(got.BtcDecode(r, ProtocolVersion, WitnessEncoding) == nil, "decode of own encoding ok")
+	vAssert(r.pos == len(w.b), "decode consumed everything")
+	vAssert(vSameTx(tx, &got), "decode(encode(tx)) == tx with every input's witness stack")
+	switch {
+	case any && !all:
+		vReach("mixed")
+	case !any:
+		vReach("none")
+	default:
+		vReach("all")
+	}
+}
